@@ -55,7 +55,8 @@ def gen_graph(rnd):
 def gen_pred(rnd, names, depth=0):
     k = rnd.random()
     if k < .35: return ('cmp', rnd.choice(['==', '!=']), str(rnd.randint(0, 4)))
-    if k < .6: return ('rel', rnd.choice(names + ['*', 'a*']))
+    if k < .5: return ('rel', rnd.choice(names + ['*', 'a*']))
+    if k < .6: return ('reldesc', rnd.choice(names + ['a*', 'l*']))
     if k < .8 or depth > 0: return ('abs', [rnd.choice(names + ['*']) for _ in range(rnd.randint(1, 2))], gen_pred(rnd, names, 1) if rnd.random() < .5 and depth == 0 else None)
     if k < .9: return ('not', gen_pred(rnd, names, 1))
     return ('and' if rnd.random() < .5 else 'or', gen_pred(rnd, names, 1), gen_pred(rnd, names, 1))
@@ -63,6 +64,7 @@ def gen_pred(rnd, names, depth=0):
 def render_pred(p):
     if p[0] == 'cmp': return '"${LEVEL}" %s "%s"' % (p[1], p[2])
     if p[0] == 'rel': return p[1]
+    if p[0] == 'reldesc': return './/' + p[1]
     if p[0] == 'abs': return '/root/' + '/'.join(p[1]) + ('[%s]' % render_pred(p[2]) if p[2] else '')
     if p[0] == 'not': return '!(%s)' % render_pred(p[1])
     return '(%s) %s (%s)' % (render_pred(p[1]), '&&' if p[0] == 'and' else '||', render_pred(p[2]))
@@ -85,6 +87,15 @@ def pred_holds(graph, root, n, p):
         v = graph[n].get('env', {}).get('LEVEL', '')
         return (v == p[2]) == (p[1] == '==')
     if p[0] == 'rel': return any(fnmatch.fnmatchcase(name, p[1]) for name in graph[n]['children'])
+    if p[0] == 'reldesc':
+        # some package below n (any depth) is called like the pattern
+        todo = [n]; seen = {n}
+        while todo:
+            x = todo.pop()
+            for name, (c, direct) in graph[x]['children'].items():
+                if fnmatch.fnmatchcase(name, p[1]): return True
+                if c not in seen: seen.add(c); todo.append(c)
+        return False
     if p[0] == 'abs':
         steps = [(False, 'root', None)] + [(False, t, None) for t in p[1][:-1]] + [(False, p[1][-1], p[2])]
         return bool(expected(graph, root, steps))
